@@ -35,6 +35,25 @@ func init() {
 		Run: func(c *Ctx) {
 			c.forPlan(c01Plan, c01Driver)
 			c.Families(c.Pick(256, 2048), c01Driver)
+			// Documents beyond one and two of the parser's read chunks, with NUL, CR,
+			// CRLF and multi-byte characters spread over hundreds of root blocks:
+			// offsets and line numbers after the buffer has been refilled and cut.
+			big := c08BigDocs()
+			sizes := [][]int{nil, {1000}, {4096}, {8191}, {8192}, {8193}, {7}, {8191, 1, 8192}, {-1}}
+			c.Explore("big-docs", fmt.Sprintf("%d generated documents of %d and %d bytes through Parse and through the streaming parser with %d read-size patterns", len(big), len(big[0]), len(big[1]), len(sizes)), -1, 0, func(x *X) {
+				in := []byte(big[x.ChooseFree(len(big))])
+				k := x.ChooseFree(len(sizes) + 1)
+				x.Validated()
+				if k == len(sizes) {
+					blocks, _ := cm.Parse(clone(in))
+					c01Tiling(x, in, blocks, "parse")
+				} else {
+					c01Stream(x, in, sizes[k], "stream")
+				}
+				x.Nontrivial()
+				x.Outcome(uint64(len(in))*31 + uint64(k))
+				x.Sample(fmt.Sprintf("big document of %d bytes, read sizes %v", len(in), append([]int(nil), sizes[min(k, len(sizes)-1)]...)))
+			})
 		},
 	})
 }
